@@ -85,6 +85,9 @@ def count_helper(facts, fn):
     return (names.index(m1.group(1)), names.index(m2.group(1)), names.index(m.group(1)))
 
 
+from ..rulelib import before as _before
+
+
 def est_via_helper(ctx, facts, fid):
     """the estimator delegates the counting to an in-crate helper: F2/F3 are checked in the helper, F1/F4 in the caller"""
     fn = facts.fn(fid)
@@ -105,7 +108,7 @@ def est_via_helper(ctx, facts, fid):
     if not any(f[0] == "cmp" and f[2] == "==" and {_resolve(fn, f[1]), _resolve(fn, f[3])} == lens for f in fs):
         return False
     body = fn["hir"]
-    rets = [n["e"] for n in user_nodes(fn) if n["k"] == "Ret" and "e" in n and n["sp"][1] > c["sp"][1]] + ([body["expr"]] if "expr" in body else [])
+    rets = [n["e"] for n in user_nodes(fn) if n["k"] == "Ret" and "e" in n and _before(fn, c, n)] + ([body["expr"]] if "expr" in body else [])
     if len(rets) != 1:
         return False
     R = resolver_of(fn)
@@ -119,6 +122,31 @@ def est_via_helper(ctx, facts, fid):
     if ok:
         ctx.ok("EST", fid, "length check; count delegated to %s (template verified there); result count / len" % short(c["callee"]), where)
         return c["callee"]
+    return False
+
+
+def est_via_delegation(ctx, facts, fid):
+    """the whole estimate is another tabled counting estimator applied to the same two sketches: `[Ok(] other(a, b) [)]` with no
+    other effect; the template is verified on `other` (it is in the COUNTING table and is checked in its own right)"""
+    fn = facts.fn(fid)
+    R = resolver_of(fn)
+    body = fn["hir"]
+    if "expr" not in body or [n for n in user_nodes(fn) if n["k"] in ("Ret", "Assign", "AssignOp") or (n["k"] == "MethodCall" and n.get("recv_ty", "").startswith("&mut "))]:
+        return False
+    e = nf.strip(body["expr"])
+    if e["k"] == "Call" and short(e.get("callee", "") or hirq.show(e["f"])) == "Ok" and len(e["args"]) == 1:
+        e = nf.strip(e["args"][0])
+    if e["k"] == "Path" and "local" in e["res"]:
+        d = R.lookup(e["res"]["local"], e)
+        e = nf.strip(d) if d is not None else e
+    if e["k"] != "Call" or e.get("callee") not in COUNTING or e.get("callee") == fid or len(e["args"]) != 2:
+        return False
+    params = [hirq.show_pat(p["pat"]) for p in fn["params"]]
+    args = [nf.nf(a, True, res=R) for a in e["args"]]
+    own = [p for p in params if p != "self"]
+    if len(set(args)) == 2 and all(a in own or a.startswith("self.") for a in args):
+        ctx.ok("EST", fid, "the estimate is %s(%s) unchanged (template verified on that function)" % (short(e["callee"]), ", ".join(args)), hirq.loc(fn))
+        return e["callee"]
     return False
 
 
@@ -171,7 +199,7 @@ def est_via_zip(ctx, facts, fid):
         ctx.violation("EST", fid, "F1 length check", hirq.loc(c), "zip() silently stops at the shorter sketch and no length comparison that panics or returns Err precedes it (facts: %s)" % fs[:3])
         return True
     bodyb = fn["hir"]
-    rets = [n["e"] for n in user_nodes(fn) if n["k"] == "Ret" and "e" in n and n["sp"][1] > c["sp"][1]] + ([bodyb["expr"]] if "expr" in bodyb else [])
+    rets = [n["e"] for n in user_nodes(fn) if n["k"] == "Ret" and "e" in n and _before(fn, c, n)] + ([bodyb["expr"]] if "expr" in bodyb else [])
     if len(rets) != 1:
         return False
     r = nf.nf(rets[0], True, res=R)
@@ -193,6 +221,9 @@ def est_template(ctx, facts, fid):
     where = hirq.loc(fn)
     fls = for_loops(fn)
     if not [n for n in t.nodes if n["k"] == "Loop" and not hirq.in_log_macro(n)]:
+        dg = est_via_delegation(ctx, facts, fid)
+        if dg:
+            return ("delegate", dg)
         hid = est_via_helper(ctx, facts, fid)
         if hid:
             return ("helper", hid)
@@ -265,7 +296,7 @@ def est_template(ctx, facts, fid):
         ctx.violation("EST", fid, "F3 counter", hirq.loc(acc), "the counter `%s` is defined by %s, expected `= 0` and one `+= 1`" % (cnt, cdefs))
         return None
     # F4: the result
-    rets = [n["e"] for n in user_nodes(fn) if n["k"] == "Ret" and "e" in n and fl["match"]["sp"][1] < n["sp"][1]]
+    rets = [n["e"] for n in user_nodes(fn) if n["k"] == "Ret" and "e" in n and _before(fn, fl["match"], n)]
     body = fn["hir"]
     if "expr" in body:
         rets.append(body["expr"])
